@@ -7,7 +7,7 @@
 //! variables in and one JSON file out:
 //!   VERIF_E5_PROP   property id the test must serve (a test for another id returns at once)
 //!   VERIF_TIER      quick | thorough            VERIF_SEED  root seed
-//!   VERIF_E5_SHARD  "i/k": this process executes runs r with r % k == i
+//!   VERIF_E5_SHARD  "i/k": this process executes the runs whose scenario index si has si % k == i
 //!   VERIF_E5_OUT    path of the leg-result JSON this process writes
 //!   VERIF_E5_RUNS   optional override of the number of runs
 //!   VERIF_REPLAY    replay file: re-execute exactly that run, print its log and
@@ -195,6 +195,10 @@ impl std::io::Write for LogSink<'_> {
     fn flush(&mut self) -> std::io::Result<()> {
         Ok(())
     }
+}
+
+pub fn take_last_panic() -> (String, String) {
+    LAST_PANIC.with(|p| p.borrow_mut().take()).unwrap_or_default()
 }
 
 /// Is this panic site inside code under test (the repository or a dependency) rather than in
@@ -485,12 +489,18 @@ pub fn drive(cfg: &Cfg, meta: &PropMeta, scenarios: Vec<Scenario<'_>>, post: Opt
     let mut viols: BTreeMap<String, (u64, usize, String)> = BTreeMap::new();
     let mut selftest_runs = 0u64;
     let selftest_n = if cfg.tier == "thorough" { 400 } else { 100 };
-    let mut r = shard_i;
+    // runs are assigned to shard processes by *scenario* (si % k), so that a shard only has to
+    // build (compile/load) the flows of its own scenarios
+    let mut r = 0;
     while r < runs {
         if cfg.max_s > 0.0 && t0.elapsed().as_secs_f64() > cfg.max_s {
             break;
         }
         let si = scenario_for(&scenarios, r);
+        if si as u64 % shard_k != shard_i {
+            r += 1;
+            continue;
+        }
         let sc = &scenarios[si];
         let seed = run_seed(cfg.seed, sc.name, r);
         let bytes = bytes_for(seed, EFFECTIVE_BYTES);
@@ -526,7 +536,7 @@ pub fn drive(cfg: &Cfg, meta: &PropMeta, scenarios: Vec<Scenario<'_>>, post: Opt
                 break;
             }
         }
-        r += shard_k;
+        r += 1;
     }
     if let Some(post) = post {
         let po = post();
@@ -646,3 +656,18 @@ pub fn hash_str(h: u64, s: &str) -> u64 {
     h
 }
 pub const FNV0: u64 = 0xcbf2_9ce4_8422_2325;
+
+/// A value built on first use (a compiled flow: a shard process only pays for the flows of the
+/// scenarios it actually runs).
+pub struct Lazy<T> {
+    cell: std::cell::OnceCell<T>,
+    init: Box<dyn Fn() -> T>,
+}
+impl<T> Lazy<T> {
+    pub fn new(init: impl Fn() -> T + 'static) -> Self {
+        Lazy { cell: std::cell::OnceCell::new(), init: Box::new(init) }
+    }
+    pub fn get(&self) -> &T {
+        self.cell.get_or_init(|| (self.init)())
+    }
+}
